@@ -166,6 +166,27 @@ class Injector(object):
 INJ = Injector()
 
 
+def failed_retrieval(op, rnd):
+    """Run `op` once passively to number its crossings, then once more with a seeded crossing
+    raising a seeded exception class; both outcomes are discarded.  For workloads that want 'a
+    retrieval failed earlier' as part of the history of an object.  Returns a short description."""
+    INJ.install()
+    try:
+        out, sites = INJ.passive(op)
+        out = None
+        if not sites:
+            return 'no crossing'
+        k = rnd.randint(1, len(sites))
+        exc = rnd.choice(EXC_CLASSES)
+        out, fired = INJ.inject(op, k, exc)
+        kind = out[0]
+        out = None
+        return 'crossing %d of %d raised %s -> retrieval %s' % (k, len(sites), exc.__name__,
+                                                                 'raised' if kind == 'raise' else 'returned')
+    finally:
+        INJ.uninstall()     # the events are process-wide: leave nothing switched on for the caller
+
+
 # ------------------------------------------------------------------ snapshot
 
 _SLOT_ATTRS = ('__self__', 'func', 'posoarg_names', 'kwoarg_names', 'kwopos', '__signature__')
